@@ -95,8 +95,84 @@ pub fn record(args: &Args) {
     println!("{}", json!({"runs":runs,"events":events}));
 }
 
+/// what an item becomes in two sketches, read back through the public API, against the reference
+/// derivation from the item's hashed byte sequence (std's default integer writes: little-endian bytes)
+fn derive_item<T: std::hash::Hash + Clone>(out: &mut Shards, kind: &str, item: T) {
+    use datasketches::hll::{HllSketch, HllType};
+    use datasketches::theta::ThetaSketch;
+    let mut sk = HllSketch::new(10, HllType::Hll8);
+    sk.update(item.clone());
+    let (slot, val) = refhash::hll_coupon(&item);
+    let bytes = sk.serialize();
+    let c = u32::from_le_bytes([bytes[8], bytes[9], bytes[10], bytes[11]]);
+    out.ev(json!({"op":"Derive","what":"hll_coupon","kind":kind,"lib":[c & ((1<<26)-1), c >> 26],"ref":[slot, val]}));
+    let mut th = ThetaSketch::builder().build();
+    th.update(item.clone());
+    let lib = th.iter().next().unwrap_or(0);
+    let r = refhash::murmur3_x64_128(&refhash::hashed_bytes(&item), 9001).0 >> 1;
+    out.ev(json!({"op":"Derive","what":"theta_hash","kind":kind,"lib":hex64(lib),"ref":hex64(r)}));
+}
+
+#[derive(Hash, Clone)]
+struct Rec3 {
+    a: u32,
+    b: u32,
+    c: u64,
+}
+
+#[derive(Hash, Clone)]
+struct Mixed {
+    a: u8,
+    b: u16,
+    c: u32,
+    d: u64,
+    e: i8,
+    f: i16,
+    g: i32,
+    h: i64,
+    i: usize,
+    j: isize,
+    k: u128,
+    l: i128,
+    m: bool,
+    n: char,
+}
+
+/// composite items: every integer write method of the Hasher, at every offset within a 16-byte block
+fn derive_typed(out: &mut Shards, rng: &mut Rng) {
+    out.next_run("hash-derive");
+    let (a, b, c) = (rng.next(), rng.next(), rng.next());
+    derive_item(out, "(u64,u64)", (a, b));
+    derive_item(out, "(i64,i64)", (a as i64, b as i64));
+    derive_item(out, "(u64,u64,u64)", (a, b, c));
+    derive_item(out, "Rec3{u32,u32,u64}", Rec3 { a: a as u32, b: b as u32, c });
+    derive_item(out, "(u64,u64,u64,&str)", (a, b, c, "tail"));
+    derive_item(out, "u128", ((a as u128) << 64) | b as u128);
+    derive_item(out, "i128", (((a as u128) << 64) | b as u128) as i128);
+    derive_item(out, "[u8;16]", ((a as u128) << 64 | b as u128).to_le_bytes());
+    derive_item(out, "[u64;3]", [a, b, c]);
+    derive_item(out, "(u8,u64)", (a as u8, b));
+    derive_item(out, "(u32,u64)", (a as u32, b));
+    derive_item(out, "(u16,u16,u32,u64)", (a as u16, b as u16, c as u32, a));
+    derive_item(out, "(u64,u32)", (a, b as u32));
+    derive_item(out, "(&str,u64)", ("0123456", b));          // 7 bytes + 0xff terminator, then a u64 at offset 8
+    derive_item(out, "(&str,u64)15", ("0123456789abcde", b)); // 15 bytes + terminator = one full block
+    derive_item(out, "Vec<u64>", vec![a, b, c]);             // length prefix (usize) then the elements
+    derive_item(out, "Vec<u8>", vec![a as u8; (b % 40) as usize]);
+    derive_item(out, "(usize,isize)", (a as usize, b as isize));
+    derive_item(out, "Option<u64>", Some(a));
+    derive_item(out, "Mixed", Mixed { a: a as u8, b: a as u16, c: a as u32, d: b, e: b as i8, f: b as i16, g: b as i32, h: c as i64,
+        i: c as usize, j: c as isize, k: (a as u128) << 64 | c as u128, l: -((b as i128) << 30), m: a & 1 == 1, n: 'x' });
+    derive_item(out, "String15", "x".repeat(15));
+    derive_item(out, "String31", "y".repeat(31));
+    derive_item(out, "f64-bits", (a as f64).to_bits());
+}
+
 fn derive(out: &mut Shards, rng: &mut Rng, n: usize) {
     use datasketches::hll::{HllSketch, HllType};
+    for _ in 0..(n / 20).max(4) {
+        derive_typed(out, rng);
+    }
     for i in 0..n {
         out.next_run("hash-derive");
         // HLL: the first coupon of a list-mode image is the coupon of the item
